@@ -370,14 +370,11 @@ func ruleC02RecordMatchesKey(c *Ctx) {
 		if parentIdx >= 0 && fields["ParentKeyMeta"] == nil {
 			problems = append(problems, "ParentKeyMeta is not set")
 		} else if parentIdx >= 0 {
-			pm := litFields(resolve(fields["ParentKeyMeta"]))
-			if pm == nil || pm["Created"] == nil || pm["ID"] == nil {
-				pm = map[string]ssa.Value{"Created": fields["ParentKeyMeta"], "ID": fields["ParentKeyMeta"]}
-			}
-			if cv, ok := resolve(pm["Created"]).(*ssa.Call); !ok || methodNameOf(&cv.Call) != "Created" || resolve(receiverOf(&cv.Call)) != ssa.Value(f.Params[parentIdx]) {
+			pmID, pmKey, _ := keyMetaParts(fields["ParentKeyMeta"])
+			if pmKey == nil || pmKey != ssa.Value(f.Params[parentIdx]) {
 				problems = append(problems, "ParentKeyMeta.Created is not Created() of the system key that wrapped the IK")
 			}
-			if cv, ok := resolve(pm["ID"]).(*ssa.Call); !ok || !cv.Call.IsInvoke() || cv.Call.Method.Name() != "SystemKeyID" {
+			if cv, ok := resolve(pmID).(*ssa.Call); pmID == nil || !ok || !cv.Call.IsInvoke() || cv.Call.Method.Name() != "SystemKeyID" {
 				problems = append(problems, "ParentKeyMeta.ID is not partition.SystemKeyID()")
 			}
 		}
